@@ -328,6 +328,20 @@ def linearity(chk, C):
             chk.fail('C11:linearity', 'periodic step is not linear in the data', {'kind': kind, 'a': a, 'c': c, 'dt': dt},
                      actual=float(err))
         chk.count('test: linear in the data (periodic mode)')
+        # a step with zero displacement on an object that has just been used with a non-zero one (c = 0 on some lines of the
+        # grid-level loops, dt = 0): the nodal values stay what they are (the interpolant at its own nodes), in every boundary mode
+        for mode in ('fEq', 'null', 'periodic'):
+            adv2 = VParallelAdvection([None, None, None, pts], basis, C, mode)
+            warm = f1.copy()
+            adv2.step(warm, dt, c, 0.5)
+            for (c0, dt0) in ((0.0, dt if dt != 0 else 0.3), (c, 0.0)):
+                h = f2.copy()
+                adv2.step(h, dt0, c0, 0.5)
+                err0 = np.abs(h - f2).max()
+                if err0 > 4096 * 2.0 ** -53 * n * np.abs(f2).max() * 2 * basis.degree * 8.0 / min_cell(basis):
+                    chk.fail('C11:zero-displacement', 'a step with c*dt = 0 after a step with c*dt != 0 on the same object changes the nodal values',
+                             {'kind': kind, 'mode': mode, 'previous': {'c': c, 'dt': dt}, 'c': c0, 'dt': dt0}, actual=float(err0))
+            chk.count('test: zero displacement after a non-zero step')
 
 
 def grid_wiring(chk, C):
@@ -397,6 +411,67 @@ def grid_wiring(chk, C):
         chk.traces_validated += 1
 
 
+def grid_sequence(chk, C):
+    """the driver's Strang sequence on real objects: `gridStep` (computes the parallel gradient of phi into the caller's table and
+    advects with it) followed by `gridStepKeepGradient` with another time step (re-uses the table).  Afterwards (a) the table must
+    still hold the parallel gradient of phi at the line's own global position (computed again with the same ParallelGradient
+    object), (b) both steps must have advected every line with exactly that gradient (line-by-line kernel-level `step`)."""
+    from props import c05
+    import layout_util as lu
+    from pygyro.advection.advection import VParallelAdvection
+    rng = chk.rng
+    npts = (6, 8, 8, 9)
+    for forced in ([(1, 2), (2, 2)] if chk.quick() else [(1, 1), (1, 2), (2, 1), (2, 2), (3, 2), (2, 4)]):
+        dt1, dt2 = rng.choice([(0.35, 0.7), (-0.4, 1.3), (0.5, -0.25)])
+
+        def body():
+            o = c05.build(npts, forced, 0.8, start='v_parallel', seed=3)
+            f, phi = o['f'], o['phi']
+            f.setLayout('v_parallel')
+            phi.setLayout('v_parallel_1d')
+            c05.fill_phi(phi, npts, 'v_parallel_1d', 7)
+            lay = f.getLayout('v_parallel')
+            nr = lay.shape[0]
+            f0 = np.array(f.getAllData()).copy()
+            pgv = np.full([nr, npts[2], npts[1]], np.nan)
+            o['vpar'].gridStep(f, phi, o['pg'], pgv, dt1)
+            table1 = pgv.copy()
+            o['vpar'].gridStepKeepGradient(f, pgv, dt2)
+            table2 = pgv.copy()
+            got = np.array(f.getAllData()).copy()
+            # reference on this rank: gradient again, then line by line with a fresh advection object
+            grad = np.empty([nr, npts[2], npts[1]])
+            for i, _ in f.getCoords(0):
+                o['pg'].parallel_gradient(np.real(phi.get2DSlice(i)), i, grad[i])
+            k = VParallelAdvection(f.eta_grid, f.getSpline(3), o['constants'])
+            ref = f0.copy()
+            zs = list(f.getGlobalIdxVals(1))
+            for d in (dt1, dt2):
+                for i, r in f.getCoords(0):
+                    for j, zg in enumerate(zs):
+                        for q in range(ref.shape[2]):
+                            k.step(ref[i, j, q], d, grad[i, zg, q], r)
+            return {'table1': np.array_equal(table1, grad), 'table2': np.array_equal(table2, grad), 'same': np.array_equal(got, ref),
+                    'maxdiff': float(np.max(np.abs(got - ref))) if got.size else 0.0}
+        res = lu.run_ranks(forced[0] * forced[1], body, policy='random', seed=chk.seed)
+        case = {'npts': list(npts), 'process_grid': list(forced), 'dt_gridStep': dt1, 'dt_gridStepKeepGradient': dt2}
+        if not res.ok:
+            chk.fail('C11:gridstep-raises', 'gridStep / gridStepKeepGradient raised: ' + str(res.first_error())[:200], case)
+            continue
+        for rk, v in enumerate(res.values()):
+            if not v['table1'] or not v['table2']:
+                chk.fail('C11:gradient-table', 'after gridStep%s the caller\'s table no longer holds the parallel gradient of the potential'
+                         % ('' if not v['table1'] else ' + gridStepKeepGradient'), dict(case, rank=rk))
+                break
+            if not v['same']:
+                chk.fail('C11:gridstep-sequence', 'gridStep followed by gridStepKeepGradient does not advect every line with the gradient at its own '
+                         'global position (max difference %.3e)' % v['maxdiff'], dict(case, rank=rk))
+                break
+        chk.count('grid-level gridStep + gridStepKeepGradient sequences, ranks=%d' % (forced[0] * forced[1]))
+        chk.case(('gridseq', tuple(forced), dt1, dt2), nontrivial=forced[1] > 1)
+        chk.traces_validated += 1
+
+
 def run(chk):
     from pygyro.initialisation.constants import Constants
     chk.rule = ('kernel cases: (spline path: uniform-cubic closed-form kernels / general kernels degree 1-5 on uniform or '
@@ -412,6 +487,7 @@ def run(chk):
         drv.close()
     linearity(chk, C)
     grid_wiring(chk, C)
+    grid_sequence(chk, C)
     chk.assumptions = [
         'compute_interpolant is a contract: the model evaluates the coefficients returned by the real interpolator for the same data (residual of that solve: C08)',
         'both spline paths evaluate the same spline (C07 cubic_eq_general); the model evaluates the cubic-uniform path on the equidistant knot vector xmin+dx*(i-3)',
